@@ -100,6 +100,19 @@ def run_fast(pgn, src, dest, prio, payload, seq, variant):
         out["actisense"] = canon(NMEA2000Decoder(**DEC_KW).decode_actisense_string(wire.actisense(pgn, src, dest, prio, payload, ts_a, up)))
     except Exception:
         out["actisense"] = None
+    # the sender restarts and sends the message again with the SAME sequence counter (right after the first one was completed)
+    try:
+        d = NMEA2000Decoder(**DEC_KW)
+        r = None
+        for rep in range(2):
+            r = None
+            for i, fr in enumerate(frames):
+                r = d.decode_tcp(wire.ebyte(ident, fr, pad))
+                if i < len(frames) - 1 and r is not None:
+                    break
+        out["ebyte-again-same-counter"] = canon(r) if (r is None or i == len(frames) - 1) else ("early", canon(r))
+    except Exception:
+        out["ebyte-again-same-counter"] = None
     # frames as they are on the bus: every CAN frame has 8 data bytes, the unused tail of the last one is 0xFF (devices) or 0x00
     for name, fill in (("ebyte-padded-ff", 0xFF), ("ebyte-padded-00", 0x00)):
         try:
